@@ -112,20 +112,20 @@ func parseIntegerSequenceID(str string) (SequenceID, error) {
 	} else if len(components) == 2 {
 		// TriggeredBy and InternalSequence
 		if s.TriggeredBy, err = ParseIntSequenceComponent(components[0], false); err != nil {
-			return SequenceID{}, err
+			return SequenceID{}, base.HTTPErrorf(400, "Invalid sequence: %q", str)
 		}
 		if s.Seq, err = ParseIntSequenceComponent(components[1], false); err != nil {
-			return SequenceID{}, err
+			return SequenceID{}, base.HTTPErrorf(400, "Invalid sequence: %q", str)
 		}
 	} else if len(components) == 3 {
 		if s.LowSeq, err = ParseIntSequenceComponent(components[0], false); err != nil {
-			return SequenceID{}, err
+			return SequenceID{}, base.HTTPErrorf(400, "Invalid sequence: %q", str)
 		}
 		if s.TriggeredBy, err = ParseIntSequenceComponent(components[1], true); err != nil {
-			return SequenceID{}, err
+			return SequenceID{}, base.HTTPErrorf(400, "Invalid sequence: %q", str)
 		}
 		if s.Seq, err = ParseIntSequenceComponent(components[2], false); err != nil {
-			return SequenceID{}, err
+			return SequenceID{}, base.HTTPErrorf(400, "Invalid sequence: %q", str)
 		}
 	} else {
 		return SequenceID{}, base.HTTPErrorf(400, "Invalid sequence: %q", str)
